@@ -242,12 +242,18 @@ def brute_sat(decls, cs, base, fixed, limit=3_000_000):
 # ---------------------------------------------------------------- own z3 translation (independent of cspuz.backend.z3)
 
 
-def z3_solve(decls, cs, base, fixed, want_all=False, extra=None):
+class Unknown(Exception):
+    """z3 gave up within the time limit asked for (neither a model nor a refutation)."""
+
+
+def z3_solve(decls, cs, base, fixed, want_all=False, extra=None, timeout_ms=None):
     """Satisfiability of the program over aux vars by z3 with the harness's own translation.
-    Returns model dict or None."""
+    Returns model dict or None.  With `timeout_ms` (used for LARGE instances only) an undecided query raises Unknown."""
     import z3
     var = {}
     s = z3.Solver()
+    if timeout_ms:
+        s.set("timeout", int(timeout_ms))
     for k, d in enumerate(decls):
         if d == "b":
             var[f"b{base + k}"] = z3.Bool(f"b{base + k}")
@@ -316,7 +322,10 @@ def z3_solve(decls, cs, base, fixed, want_all=False, extra=None):
         s.add(tr(c))
     if extra is not None:
         s.add(extra(var))
-    if s.check() != z3.sat:
+    res = s.check()
+    if res == z3.unknown and timeout_ms:
+        raise Unknown("z3: %s" % s.reason_unknown())
+    if res != z3.sat:
         return None
     m = s.model()
     out = dict(fixed)
@@ -338,13 +347,27 @@ def has_native(cs):
     return any(walk(c) for c in cs)
 
 
-def solve_prog(decls, cs, base, fixed):
+def solve_prog(decls, cs, base, fixed, timeout_ms=None):
     """Model of the aux variables or None.  Programs with native graph operators go through brute force
-    (their semantics is implemented by `ev`), the others through z3."""
+    (their semantics is implemented by `ev`), the others through z3 (`timeout_ms`: see z3_solve)."""
     if has_native(cs):
+        # performance: a native operator all of whose arguments are decided by `fixed` (the usual case: its arguments are the caller's
+        # variables) is evaluated directly by `ev`; what is left has no native operator and goes to z3.  Otherwise brute force.
+        nat = [c for c in cs if has_native([c])]
+        if all(_closed(c, fixed) for c in nat):
+            if any(ev(c, fixed) is not True for c in nat):
+                return None
+            return z3_solve(decls, [c for c in cs if not has_native([c])], base, fixed, timeout_ms=timeout_ms)
         ok, w = brute_sat(decls, cs, base, fixed)
         return w if ok else None
-    return z3_solve(decls, cs, base, fixed)
+    return z3_solve(decls, cs, base, fixed, timeout_ms=timeout_ms)
+
+
+def _closed(t, fixed):
+    """every variable of the tree has a value in `fixed`"""
+    if isinstance(t, str):
+        return not (t[0] in "bi" and t[1:].isdigit()) or t in fixed
+    return all(_closed(x, fixed) for x in t[1:])
 
 
 def brute_models(decls, cs, base, fixed, limit=2_000_000):
